@@ -379,8 +379,6 @@ class List(list, base.Symbolic, pg_typing.CustomTyping):
 
   def seal(self, sealed: bool = True) -> 'List':
     """Seal or unseal current object from further modification."""
-    if self.is_sealed == sealed:
-      return self
     for elem in self.sym_values():
       if isinstance(elem, base.Symbolic):
         elem.seal(sealed)
